@@ -10,7 +10,7 @@ import z3
 
 from . import dump, mirparse, rustdefs
 from .interp import Interp, Outcome, CellState
-from .models import Models, TableV, MapV
+from .models import Models
 from .values import *   # noqa
 
 SRC_FILES = ['src/bdd.rs', 'src/parser.rs', 'src/symbols.rs', 'src/set.rs', 'src/truth_table.rs', 'src/bdd_io.rs',
@@ -121,7 +121,16 @@ class World:
                 node = mk_rc(mk('BDD', 2, [hi, self.syms[level], lo]))
                 r = merge(same, lo, node)
         self._canon[key] = (r, tt)
+        if r.ghost is None:
+            # full-width truth table (over all k atoms) of the sub-diagram: independent of the atoms above `level`
+            r.ghost = (self, [tt[j & (len(tt) - 1)] for j in range(1 << self.k)])
         return r
+
+    def tt_of(self, v):
+        """ghost truth table (over all k atoms) of a value known to be canonical, else None"""
+        if isinstance(v, RcV) and v.ghost is not None and v.ghost[0] is self:
+            return v.ghost[1]
+        return None
 
     def var(self, i):
         return mk_rc(mk('BDD', 2, [self.rcT, self.syms[i], self.rcF]))
@@ -155,12 +164,40 @@ def tt_map(k, f, *tts):
 
 # ------------------------------------------------------------------------------------------------ environment
 
-def new_env(I, mem, table=None):
-    """BDDEnv value with an abstract table satisfying the representation invariant; returns (env_value, mem)"""
-    c = I.new_cell()
-    mem = dict(mem)
-    mem[c] = CellState(table if table is not None else TableV(), 0)
-    env = mk_struct('BDDEnv', [RefCellV(c)])
+def new_env(I, mem, table=None, check_init=True):
+    """BDDEnv value obtained by executing the real `BDDEnv::new()`; the contents of its `nodes` table are then replaced
+    by the abstract table (arbitrary contents satisfying the representation invariant).  Any other state a changed
+    tree adds to the environment stays as `new()` created it.  Returns (env_value, mem)."""
+    outs = I.run('BDDEnv', None, 'new', [], dict(mem))
+    rets = [o for o in outs if o.kind == 'ret']
+    if len(rets) != 1 or any(o.kind == 'panic' and not g_false(o.guard) for o in outs):
+        raise EngineError('BDDEnv::new() did not return a single environment')
+    env, mem = rets[0].value, dict(rets[0].mem)
+    fields = I.defs.structs.get('BDDEnv')
+    if not fields or 'nodes' not in fields:
+        raise Unsupported('BDDEnv has no field `nodes`')
+    cellv = env.alts[0][1][fields.index('nodes')]
+    if not isinstance(cellv, RefCellV):
+        raise Unsupported('BDDEnv.nodes is not a RefCell')
+    init = mem[cellv.cell].content
+    if check_init:
+        # establishment of the invariant by new(): both leaves present, each entry's key == *value
+        ok = isinstance(init, MapV)
+        seen = set()
+        if ok:
+            for g, kx, vx in init.items:
+                if not (g is True and isinstance(kx, Adt) and kx.ty == 'BDD' and len(kx.alts) == 1 and isinstance(vx, RcV)):
+                    ok = False
+                    break
+                (vi, _), = kx.alts.items()
+                (wi, _), = vx.inner.alts.items()
+                if vi != wi:
+                    ok = False
+                seen.add(vi)
+        if not ok or not {0, 1} <= seen:
+            raise EngineError('BDDEnv::new() does not establish the table invariant (leaves present, key == *value)')
+    mem[cellv.cell] = CellState(table if table is not None else TableV(), 0)
+    I.env_init_table = init
     return env, mem
 
 
